@@ -73,6 +73,34 @@ pub fn reset_hooks() {
     CACHE_STATS.with(|s| *s.borrow_mut() = [(0, 0); 36]);
 }
 
+thread_local! {
+    static GRAMMAR: std::cell::RefCell<Option<crate::earley::Grammar>> = const { std::cell::RefCell::new(None) };
+}
+
+// C07, one direction: whatever the parser accepts is a sentence of grammar.y, with exactly one derivation
+fn check_sentence(out: &mut Out, text: &str, toks: &[Token], accepted: bool, parse_errors_only: bool) {
+    GRAMMAR.with(|g| {
+        let mut g = g.borrow_mut();
+        if g.is_none() { *g = crate::earley::load("/repo/grammar.y").ok(); }
+        let Some(gr) = g.as_ref() else { return; };
+        let names: Vec<&str> = toks.iter().map(|t| crate::earley::TERMINAL_OF_TAG[tag(&t.variant)]).collect();
+        let is_sentence = gr.recognises(&names);
+        if accepted && !is_sentence {
+            out.hit("C07", "accepted-token-sequence-is-not-a-sentence-of-grammar.y", text, "");
+        }
+        if accepted && is_sentence && names.len() <= 14 {
+            let n = gr.count_derivations(&names);
+            if n != 1 { out.hit("C07", "sentence-with-several-derivations", text, &format!("{n}+ derivations")); }
+            out.stat("grammar:unambiguous-checked");
+        }
+        if !accepted && parse_errors_only && is_sentence {
+            // rejected although it is a sentence and no scoping is involved
+            out.hit("C07", "sentence-rejected", text, "");
+        }
+        out.stat(if is_sentence { "grammar:sentence" } else { "grammar:non-sentence" });
+    });
+}
+
 pub fn check_text(out: &mut Out, names: &mut Ser, text: &str, ctx: &[&str], with_stats: bool) {
     let toks = match guarded(|| tokenize(None, text)) { Ok(Ok(t)) => t, Ok(Err(_)) => { out.stat("parser:tok-err"); return; } Err(m) => { out.hit("C14", "tokenize-panic", text, &m); return; } };
     let ts = toks_str(names, &toks);
@@ -83,10 +111,13 @@ pub fn check_text(out: &mut Out, names: &mut Ser, text: &str, ctx: &[&str], with
     let stats: [(usize, usize); 36] = CACHE_STATS.with(|s| *s.borrow());
     let answer = match &r {
         Err(m) => { out.hit("C14", "parse-panic", text, m); "panic".to_owned() }
-        Ok(Ok(t)) => { out.stat("parser:ok"); format!("ok {}", ranged(names, t, &mut HashMap::new())) }
+        Ok(Ok(t)) => { out.stat("parser:ok"); check_sentence(out, text, &toks, true, false); format!("ok {}", ranged(names, t, &mut HashMap::new())) }
         Ok(Err(es)) => {
             out.stat("parser:err");
             if es.is_empty() { out.hit("C14", "parse-empty-error-list", text, ""); }
+            // a rejection whose diagnostics are all syntax errors ("Expected ...", "never closed") of a sentence
+            let syntax_only = es.iter().all(|e| e.message.contains("Expected") || e.message.contains("never closed"));
+            check_sentence(out, text, &toks, false, syntax_only);
             // every diagnostic range lies within the text, on character boundaries
             for (a, b) in &ranges {
                 if a > b || *b > text.len() || !text.is_char_boundary(*a) || !text.is_char_boundary(*b) {
